@@ -22,7 +22,8 @@ CONSTANT Configs     \* set of pool configurations, each a record
   \* [label, MaxNodes, MaxSecs, MaxAlias, MaxArgs, MaxDirs, MaxVars,
   \*  OpHeads ("query:", "query:Q", "mutation:M", "subscription:S" ...), FragNames (names fragment definitions may take),
   \*  Fields, Conds, Spreads, ArgPool, DirPool, VarPool,
-  \*  OpenOnly, LeafOnly (fields that always / never get a selection set; the rest: both ways)]
+  \*  OpenOnly, LeafOnly (fields that always / never get a selection set; the rest: both ways),
+  \*  FragSeq (canonical fragment names, see below), Inline (1: inline fragments are generated)]
   \* One TLC run enumerates all of them: Init picks the configuration, it never changes afterwards.
 VARIABLES p, secs, open, nalias, nargs, ndirs, nvars
 vars == <<p, secs, open, nalias, nargs, ndirs, nvars>>
@@ -34,7 +35,11 @@ MaxArgs == p.MaxArgs
 MaxDirs == p.MaxDirs
 MaxVars == p.MaxVars
 OpHeads == p.OpHeads
-FragNames == p.FragNames
+\* fragment definitions take their names from FragNames; when FragSeq is not empty the k-th fragment definition
+\* must take the k-th name of FragSeq instead (canonical naming: fragment DAGs without permuted / repeated names)
+NFrags == Cardinality({i \in 1..Len(secs) : secs[i].kind = "frag"})
+FragNames == IF Len(p.FragSeq) = 0 THEN p.FragNames
+             ELSE IF NFrags < Len(p.FragSeq) THEN {p.FragSeq[NFrags + 1]} ELSE {}
 Fields == p.Fields
 Conds == p.Conds
 Spreads == p.Spreads
@@ -82,7 +87,7 @@ AddField ==
        /\ nargs' = nargs + Len(as) /\ ndirs' = ndirs + Len(ds) /\ UNCHANGED nvars
 
 AddInline ==
-  /\ NNodes + 1 < MaxNodes
+  /\ p.Inline = 1 /\ NNodes + 1 < MaxNodes
   /\ \E c \in Conds \cup {""}, ds \in DirChoice :
        /\ Append2(Node("inline", "", "", c, <<>>, ds, TRUE))
        /\ open' = Append(Bump, 0)
